@@ -673,17 +673,37 @@ done:
 	return rRead
 }
 
+// takesLock: the function body calls x.Lock() / x.RLock(), or x.Do(...) (sync.Once: everything the
+// function does after it happens after the one initialisation).
 func takesLock(fd *ast.FuncDecl) bool {
 	found := false
 	ast.Inspect(fd.Body, func(n ast.Node) bool {
 		if c, ok := n.(*ast.CallExpr); ok {
-			if sel, ok := c.Fun.(*ast.SelectorExpr); ok && (sel.Sel.Name == "Lock" || sel.Sel.Name == "RLock") {
+			if sel, ok := c.Fun.(*ast.SelectorExpr); ok && (sel.Sel.Name == "Lock" || sel.Sel.Name == "RLock" || sel.Sel.Name == "Do") {
 				found = true
 			}
 		}
 		return !found
 	})
 	return found
+}
+
+// onceFuncs: package functions passed by name to x.Do(f) run under the Once, like init().
+func onceFuncs(files []*ast.File) map[string]bool {
+	out := map[string]bool{}
+	for _, f := range files {
+		ast.Inspect(f, func(n ast.Node) bool {
+			if c, ok := n.(*ast.CallExpr); ok && len(c.Args) == 1 {
+				if sel, ok := c.Fun.(*ast.SelectorExpr); ok && sel.Sel.Name == "Do" {
+					if id, ok := c.Args[0].(*ast.Ident); ok {
+						out[id.Name] = true
+					}
+				}
+			}
+			return true
+		})
+	}
+	return out
 }
 
 // walk visits every identifier of a function body with its ancestor stack (selector field names skipped).
@@ -798,13 +818,14 @@ func packageVars(fset *token.FileSet, mainFile string) ([]varRow, error) {
 			})
 		}
 	}
+	once := onceFuncs(files)
 	for _, f := range files {
 		for _, d := range f.Decls {
 			fd, ok := d.(*ast.FuncDecl)
 			if !ok || fd.Body == nil || (fd.Recv == nil && fd.Name.Name == "init") {
 				continue
 			}
-			locked := takesLock(fd)
+			locked := takesLock(fd) || (fd.Recv == nil && once[fd.Name.Name])
 			walkIdents(fd.Body, func(stack []ast.Node) {
 				id := stack[len(stack)-1].(*ast.Ident)
 				v := byName[id.Name]
